@@ -128,6 +128,9 @@ def plusOf (diff : List Bytes) : List Bytes :=
 def minusOf (diff : List Bytes) : List Bytes :=
   diff.filterMap fun l => match classify l with | .minus p => some p | _ => none
 
+/-- all records the codec emits for a list of (accepted) lines, in order -/
+def recsOf (conv : Conv) (ls : List Bytes) : Pairs := (ls.filterMap conv).flatten
+
 /-- a diff line `ApplyDiff` stops at -/
 def malformed (conv : Conv) (l : Bytes) : Bool :=
   match classify l with
